@@ -246,6 +246,9 @@ HAND = [
 (assert (str.contains v "ab"))
 (assert (str.contains w v))
 '''),
+    ('deep-sum', '(declare-sort U 0)\n(declare-fun f (U) Int)\n'
+     '(declare-const u U)\n(assert (> ' + '(+ ' * 22 + '(f u)' +
+     ' 1)' * 22 + ' 0))\n'),
     ('comments', '''; leading
 (declare-const a Bool) ; trailing
 (assert (or a ; inside
